@@ -523,6 +523,11 @@ func (ts *TermStore) FPBin(op string, a, b *Term) *Term {
 	if a.sort != b.sort || a.sort.K != SFP {
 		panic("fp sort mismatch")
 	}
+	// IEEE addition and multiplication are commutative (SMT-LIB has a single NaN):
+	// normalise the operand order so that x+y and y+x are the same term
+	if (op == "fp.add" || op == "fp.mul") && !a.isConst && !b.isConst && b.id < a.id {
+		a, b = b, a
+	}
 	if a.isConst && b.isConst {
 		x, y := a.F(), b.F()
 		var r float64
